@@ -62,6 +62,43 @@ def counter_form(ctx, idx, d, fi, cfg, nexts, con):
     return subs
 
 
+def reader_source(ctx, idx, d, rule="C17.f"):
+    """What the CSV reader parses is the file as it is now, line terminators included."""
+    fi = d.execute
+    con = "%s.execute::reads-the-file" % d.key
+    uses = K.state_uses(idx, fi)
+    cfg = K.cfg_of(idx, fi)
+    opens = cfg.find("call", lambda n: n.meta.get("qual") in ("builtins.open", "io.open", "codecs.open"))
+    if uses:
+        f_, n_, (m_, nm_) = uses[0]
+        ctx.violate(rule, con, d.module.rel, n_.lineno, "the rows come through module-level state `%s.%s` kept between executions: a file changed since it was first read (rewritten by EEMSWrite, edited) is read back with its old content" % (m_, nm_))
+    elif not opens:
+        raise AnalysisError("%s: no open() call found in the CSV reader" % rule)
+    else:
+        rets = cfg.find("return")
+        skipping = [r_ for r_ in rets if r_ in cfg.reachable([cfg.entry], avoid=set(opens))]
+        ctx.ob(rule, con, d.module.rel, opens[0].line, not skipping, "the file is opened on every path to a return, and no state outlives the call" if not skipping else
+               "a return at line %s can be reached without opening the file: the values then come from somewhere else than the file's current content" % skipping[0].line)
+    # the line source handed to csv.reader keeps the terminators: csv needs them to rebuild a quoted cell that spans lines, and
+    # str.splitlines() also splits on \x0b \x0c \x1c-\x1e \x85 \u2028 \u2029, which the csv writer never quotes
+    readers = [n for n in own_nodes(fi.node) if isinstance(n, ast.Call) and (idx.qualname(fi.module, n.func, fi) or "") in ("csv.reader", "csv.DictReader") and n.args]
+    if not readers:
+        raise AnalysisError("%s: no csv.reader call found in the CSV reader" % rule)
+    for rd_ in readers:
+        src_e = K.expand(fi, rd_.args[0])
+        bad = None
+        for x in ast.walk(src_e):
+            if isinstance(x, ast.Call) and isinstance(x.func, ast.Attribute):
+                if x.func.attr == "splitlines":
+                    keep = (x.args and isinstance(x.args[0], ast.Constant) and x.args[0].value is True) or any(k.arg == "keepends" and isinstance(k.value, ast.Constant) and k.value.value is True for k in x.keywords)
+                    if not keep:
+                        bad = x
+                elif x.func.attr in ("split", "rsplit", "strip", "rstrip", "partition"):
+                    bad = x
+        ctx.ob(rule, "%s.execute::line-source" % d.key, d.module.rel, rd_.lineno, bad is None, "csv.reader is fed `%s`: the file's own lines with their terminators" % K.src(src_e)[:50] if bad is None else
+               "csv.reader is fed `%s`: `%s` drops the line terminators (and splits on more characters than the writer treats as line ends), so a quoted cell spanning lines is glued together wrongly and a cell containing such a character breaks the row apart" % (K.src(src_e)[:50], K.src(bad)[-30:]))
+
+
 def run(ctx, idx):
     ctx.assume("csv.reader yields one list per physical row for unquoted numeric data; blank lines yield empty lists")
     ctx.rule("C17.a", "Parameters mean what they clean to: every kwargs.get default and every literal compared with a cleaned parameter lies in the cleaned domain of its declared type (a DataType cleans to a type object).")
@@ -90,6 +127,8 @@ def run(ctx, idx):
                "cells are marked missing by a `%s` comparison with `%s`, not by equality: values merely close to the missing value are masked too" % ("/".join(ops), miss[0]) if ok and not eq else
                "the cells equal to `%s` are not the ones marked missing on the returned array" % (miss[0] if miss else "MissingVal")))
     R.zero_is_a_value(ctx, "C17.b", d, r)
+    ctx.rule("C17.f", "Reading parses the file as it is now: the reader opens the file on every path to a return and keeps no state between executions; csv.reader is fed the file's own lines, terminators included.")
+    reader_source(ctx, idx, d)
     # ---- c
     fi = d.execute
     cfg = K.cfg_of(idx, fi)
